@@ -21,6 +21,7 @@ CONSTANTS
     MaxG,      \* bound on execute() goroutines
     MaxTicks,  \* bound on Tick steps (7 time units each)
     FixF2,     \* TRUE: the code after "fix: routine: a new instance waits for every earlier instance"
+    FixF14,    \* TRUE: the state container takes the routine container's lock and uses ITS broadcast
     Eager
 
 Procs == 1..Len(Prog)
@@ -173,7 +174,7 @@ CS(p) ==
          [] o.op = "setsr" ->       \* SetStateRoutine(same function): re-installs the routine for the stored state
               LET R == SetRoutineLocked(Bundle, sstate) IN
               /\ SetBundle(R.B) /\ cur' = R.cur /\ kprev' = R.kprev
-              /\ wch' = wch
+              /\ wch' = IF FixF14 /\ R.bc THEN Bcast(wch) ELSE wch
               /\ pend' = [pend EXCEPT ![p] = [reset |-> R.reset, chg |-> R.ch]]
               /\ UNCHANGED <<kctx, sstate>>
          [] o.op = "setstate" ->
@@ -183,8 +184,8 @@ CS(p) ==
               ELSE LET R == SetRoutineLocked(Bundle, o.s) IN
                    /\ sstate' = o.s
                    /\ SetBundle(R.B) /\ cur' = R.cur /\ kprev' = R.kprev
-                   \* (the state container passes its own broadcast func: rc waiters are not woken)
-                   /\ wch' = wch
+                   \* (before the F14 fix the state container passed its own broadcast func: rc waiters were not woken)
+                   /\ wch' = IF FixF14 /\ R.bc THEN Bcast(wch) ELSE wch
                    /\ pend' = [pend EXCEPT ![p] = [changed |-> TRUE, reset |-> R.reset,
                                                     running |-> Running(R.B, R.cur, kctx), chg |-> R.ch]]
                    /\ UNCHANGED kctx
